@@ -99,10 +99,13 @@ def trunc_digits(p, q, b, n):
         ds.append(DIG[d])
     return ip, ''.join(ds), r == 0
 
-def render(x, st, bk, comma=False, vexact=True):
+def render(x, st, bk, comma=False, vexact=True, term=''):
     """reference rendering of the rational x: (text, exact flag).  Written
     from the C02/C03 statements: canonical digits, canonical expansion,
-    truncation for dp/sf, exact iff nothing was dropped."""
+    truncation for dp/sf, exact iff nothing was dropped.  `term` is the
+    imaginary suffix ('i'): appended to a decimal / integer (after a space in
+    bases above 10), written in the numerator of a fraction, a coefficient 1
+    omitted in a prefix-less base."""
     b = base_val(bk)
     pre = prefix(bk)
     point = ',' if comma else '.'
@@ -112,7 +115,10 @@ def render(x, st, bk, comma=False, vexact=True):
     a = -x if neg else x
     p, q = a.numerator, a.denominator
     sgn = '-' if neg else ''
+    sp10 = ' ' if (term and b > 10) else ''
     if q == 1:
+        if term and not has_prefix(bk) and p == 1:
+            return sgn + term, vexact
         ds = int_digits(p, b)
         ex = True
         if isinstance(st, tuple) and st[0] == 'sf' and p != 0:
@@ -120,19 +126,22 @@ def render(x, st, bk, comma=False, vexact=True):
             shown = ds[:n] + '0' * max(0, len(ds) - n)
             ex = shown == ds
             ds = shown
-        return sgn + pre + ds, vexact and ex
-    term = terminates(q, b)
-    if st in ('fraction', 'mixed_fraction') or (st == 'exact' and not term):
+        return sgn + pre + ds + sp10 + term, vexact and ex
+    term_ = terminates(q, b)
+    if st in ('fraction', 'mixed_fraction') or (st == 'exact' and not term_):
         if st == 'fraction' or p < q:
-            return sgn + pre + int_digits(p, b) + '/' + pre + int_digits(q, b), vexact
+            if term and not has_prefix(bk) and p == 1:
+                return sgn + term + '/' + pre + int_digits(q, b), vexact
+            return sgn + pre + int_digits(p, b) + (' ' if (term and b >= 19) else '') + term + '/' + pre + int_digits(q, b), vexact
         i, r = divmod(p, q)
-        return sgn + pre + int_digits(i, b) + ' ' + pre + int_digits(r, b) + '/' + pre + int_digits(q, b), vexact
-    if st in ('float', 'exact') or (st == 'auto' and term):
+        return (sgn + pre + int_digits(i, b) + ' ' + pre + int_digits(r, b) + '/' + pre + int_digits(q, b)
+                + (' ' + term if term else '')), vexact
+    if st in ('float', 'exact') or (st == 'auto' and term_):
         ip, a1, rec = expansion(p, q, b)
         t = pre + int_digits(ip, b) + point + a1
         if rec:
             t += '(' + rec + ')'
-        return sgn + t, vexact
+        return sgn + t + sp10 + term, vexact
     # truncations
     ip = p // q
     ipd = int_digits(ip, b)
@@ -168,10 +177,30 @@ def render(x, st, bk, comma=False, vexact=True):
     frac = ''.join(ds).rstrip('0')
     ex = (r == 0) and ex_int
     if frac:
-        return sgn + pre + ipd + point + frac, vexact and ex
+        return sgn + pre + ipd + point + frac + sp10 + term, vexact and ex
     # nothing but zeros shown after the point: the minus sign is kept only
     # for a non-zero integer part
-    return (sgn if ip != 0 else '') + pre + ipd, vexact and ex
+    return (sgn if ip != 0 else '') + pre + ipd + sp10 + term, vexact and ex
+
+def render_complex(re, im, st, bk, comma=False, vexact=True, re_inexact=False, im_inexact=False):
+    """re + im i as Value::format shows it: each part rendered on its own (an
+    inexact value in auto style to 10 dp; auto with a non-zero imaginary part
+    as `exact`), joined by ' + ' / ' - '; exact iff the value and both parts are.
+    re_inexact / im_inexact: the part is an approximation (a multiple of pi)."""
+    if not vexact and st == 'auto':
+        st = ('dp', 10)
+    if im != 0 and st == 'auto':
+        st = 'exact'
+    if im == 0:
+        t, ex = render(re, st, bk, comma, True)
+        return t, vexact and ex and not re_inexact
+    if re == 0:
+        t, ex = render(im, st, bk, comma, True, term='i')
+        return t, vexact and ex and not im_inexact
+    tr, er = render(re, st, bk, comma, True)
+    ti, ei = render(abs(im), st, bk, comma, True, term='i')
+    return tr + (' + ' if im > 0 else ' - ') + ti, vexact and er and ei and not re_inexact and not im_inexact
+
 
 def shown(text, exact):
     return text if exact else 'approx. ' + text
